@@ -7,20 +7,39 @@ oracle: momo vs libstdc++ directly (independent of the Coq model) + a python re-
         or removes exactly the elements visited from first to last" for the iterator-kind cases."""
 import os, hashlib, glob, json
 
-GROUPS = {1: ['uset', 'uset_o', 'umap', 'umap_o'], 2: ['ummap', 'ummap_o', 'vec'], 3: ['set', 'mset'], 4: ['map', 'mmap'],
-          5: ['smap', 'sumap', 'momap', 'moumap']}   # 5: std::string key/mapped with transparent functors; move-only mapped type
+GROUPS = {1: ['uset', 'uset_o', 'umap', 'umap_o'], 2: ['ummap', 'ummap_o', 'vec', 'svec'], 3: ['set', 'mset'], 4: ['map', 'mmap'],
+          5: ['smap', 'sumap', 'momap', 'moumap'],   # std::string key/mapped with transparent functors; move-only mapped type
+          6: ['usetf', 'usetf_o', 'umapf', 'umapf_o', 'ummapf', 'ummapf_o'],   # int keys with the DEFAULT hash: fast-hashable => BucketOpen8 / LimP4 without hash-code parts
+          7: [], 8: [], 9: []}   # 7: uset/umap/ummap with stateful allocators, 8: mset/map with stateful allocators, 9: thorough only, second pair of allocator kinds per class
+# allocator kinds (POCCA,POCMA,POCS): 1 FFF 2 TTT 3 TFT 4 FTF 5 TTF 6 TFF 7 FTT 8 FFT; quick: each wrapper class gets two complementary kinds (union over classes = all eight), vector all eight; thorough: four kinds per class
+ALLOC_SETS = {'uset': (1, 2), 'umap': (6, 7), 'ummap': (3, 4), 'mset': (5, 8), 'map': (1, 2), 'vec': (1, 2, 3, 4, 5, 6, 7, 8), 'svec': (3,)}   # quick: every trait both ways per wrapper class, union = all eight
+ALLOC_SETS2 = {'uset': (3, 4), 'umap': (5, 8), 'ummap': (1, 2), 'mset': (6, 7), 'map': (3, 4)}   # thorough tier (group 9)
+EXPECTED_TYPES = {'uset': 'LimP4<hashCodePart=1>', 'uset_o': 'Open2N2<hashCodePart=1>', 'umap': 'LimP4<hashCodePart=1>', 'umap_o': 'Open2N2<hashCodePart=1>',
+                  'ummap': 'LimP4<hashCodePart=1>', 'ummap_o': 'Open2N2<hashCodePart=1>', 'sumap': 'LimP4<hashCodePart=1>', 'moumap': 'LimP4<hashCodePart=1>',
+                  'usetf': 'LimP4<hashCodePart=0>', 'usetf_o': 'Open8', 'umapf': 'LimP4<hashCodePart=0>', 'umapf_o': 'Open8', 'ummapf': 'LimP4<hashCodePart=0>', 'ummapf_o': 'Open8'}
 GROUP_OF = {k: g for g, ks in GROUPS.items() for k in ks}
 GROUP_OF['mmk'] = 2; GROUP_OF['mmko'] = 2; GROUP_OF['pbs'] = 2
-ALLOC_KINDS = {'uset': True, 'ummap': True, 'mset': True, 'map': True, 'vec': True}   # kinds instantiated with the stateful allocators
+
+
+def group_of(cse):
+    w = cse.split(' ')
+    kind = w[1] if w[0] in ('we', 'wl', 'ord') else w[0]
+    if w[0] not in ('we', 'wl', 'ord', 'mmk', 'mmko', 'pbs') and w[1] != '0':
+        if kind in ALLOC_SETS2 and int(w[1]) in ALLOC_SETS2[kind]: return 9
+        if kind in ('uset', 'umap', 'ummap'): return 7
+        if kind in ('mset', 'map'): return 8
+    return GROUP_OF[kind]
 ORDERED = {'set', 'mset', 'map', 'mmap', 'smap', 'momap'}
+FAST = {'usetf', 'usetf_o', 'umapf', 'umapf_o', 'ummapf', 'ummapf_o'}
+PLAIN_MAP = {'umap', 'umap_o', 'map', 'umapf', 'umapf_o'}
 CROSS_MERGE = {'set', 'mset', 'map', 'mmap'}
 MOVE_ONLY = {'momap', 'moumap'}
 STRINGS = {'smap', 'sumap'}
-MULTI = {'ummap', 'ummap_o', 'mset', 'mmap'}
-UNIQ_MAP = {'umap', 'umap_o', 'map', 'smap', 'sumap', 'momap', 'moumap'}
-NO_NODES = {'ummap', 'ummap_o', 'vec'}
+MULTI = {'ummap', 'ummap_o', 'mset', 'mmap', 'ummapf', 'ummapf_o'}
+UNIQ_MAP = {'umap', 'umap_o', 'map', 'smap', 'sumap', 'momap', 'moumap', 'umapf', 'umapf_o'}
+NO_NODES = {'ummap', 'ummap_o', 'vec', 'svec', 'ummapf', 'ummapf_o'}
 INTERESTING = {'insh', 'emph', 'tryh', 'ioah', 'xinsh', 'xins', 'merge', 'err', 'erre', 'erra', 'err0', 'err1', 'eri', 'erf',
-               'cmp', 'erif', 'ext', 'exti', 'at', 'errv', 'erloop', 'ernx', 'xmut', 'mrgm', 'mrgt', 'tryr', 'findh', 'eqrh', 'insm', 'insn', 'insrv', 'insself', 'atv', 'swap', 'mov', 'cpy'}
+               'cmp', 'erif', 'ext', 'exti', 'at', 'errv', 'erloop', 'ernx', 'xmut', 'mrgm', 'mrgt', 'tryr', 'findh', 'eqrh', 'insm', 'fill', 'fillv', 'rdump', 'mvca', 'cpca', 'movq', 'ctor', 'emp0', 'rsvu', 'rhs', 'insn', 'insrv', 'insself', 'atv', 'swap', 'mov', 'cpy'}
 
 RULE = ('cases = (a) random call sequences (10-60 calls on two containers of one of 11 container kinds; keys from a small range so that '
         'duplicates abound; unique payload ids; constant hash in 1/3 of the unordered cases; 5 allocator kinds for uset/ummap/mset/map/vec) '
@@ -33,8 +52,8 @@ RULE = ('cases = (a) random call sequences (10-60 calls on two containers of one
 
 
 # ---------------------------------------------------------------------------------------------- generators
-def gen_script(r, kind, nops, ak=0, ida=1, idb=1, hm=0):
-    """one random call sequence"""
+def gen_script(r, kind, nops, ak=0, ida=1, idb=1, hm=0, prefix=(), size=0):
+    """one random call sequence (prefix: ops executed first, size: how many elements they leave, to scale positions)"""
     head = '%s %d %d %d %d' % (kind, ak, ida, idb, hm)
     R = r.choice([2, 3, 5, 8, 16, 40])
     vid = [0]
@@ -44,8 +63,9 @@ def gen_script(r, kind, nops, ak=0, ida=1, idb=1, hm=0):
         return r.range(-1, R) if r.chance(1, 8) else r.range(0, R)
 
     def val():
+        if kind.startswith('usetf'): return 0          # plain int elements: no payload
         vid[0] += 1
-        return vid[0]
+        return 100000 + vid[0] if size else vid[0]
 
     def kv():
         k, v = key(), val()
@@ -56,18 +76,28 @@ def gen_script(r, kind, nops, ak=0, ida=1, idb=1, hm=0):
         return r.below(2)
 
     def pos():
+        if size and r.chance(3, 4): return r.below(size + 2)
         return r.below(min(len(known), 9) + 2)
-    ops = []
-    if kind == 'vec':
-        tbl = [('pb', 6), ('pbr', 2), ('eb', 3), ('insv', 5), ('empv', 2), ('insn', 3), ('insrv', 3), ('inslv', 2), ('insself', 3), ('erv', 4),
+    ops = list(prefix)
+    if kind in ('vec', 'svec'):
+        tbl = [('fillv', 1), ('rdump', 1), ('ctor', 3), ('pb', 6), ('pbr', 2), ('eb', 3), ('insv', 5), ('empv', 2), ('insn', 3), ('insrv', 3), ('inslv', 2), ('insself', 3), ('erv', 4),
                ('errv', 5), ('pop', 2), ('rsz', 2), ('rszv', 2), ('asg', 1), ('asgr', 1), ('asgl', 1), ('atv', 3), ('idxv', 2), ('setv', 2),
                ('fb', 2), ('rsv', 1), ('shr', 1), ('clr', 1), ('swap', 1), ('swp2', 1), ('cmp', 4), ('cpy', 1), ('mov', 1), ('cpc', 1),
                ('mvc', 1), ('asl', 1), ('sz', 1)]
         names = [n for n, w in tbl for _ in range(w)]
-        sz = [0, 0]
+        sz = [size, 0]
         for _ in range(nops):
             o = r.choice(names); ci = c(); p = r.below(sz[ci] + 2) if r.chance(9, 10) else r.below(12)
-            if o in ('pb', 'pbr', 'eb'): ops.append('%s %d %d' % (o, ci, r.range(0, R))); sz[ci] += 1
+            if o == 'fillv': n = r.choice([3, 9, 17, 33, 70]); ops.append('fillv %d %d %d' % (ci, n, r.range(0, R))); sz[ci] += n
+            elif o == 'rdump': ops.append('rdump %d' % ci)
+            elif o == 'ctor':
+                k = r.below(6)
+                if k == 0: n = r.choice([0, 1, 2, 5]); ops.append('ctor %d 0 %d' % (ci, n)); sz[ci] = n
+                elif k == 1: n = r.choice([0, 1, 3]); ops.append('ctor %d 1 %d %d' % (ci, n, r.range(0, R))); sz[ci] = n
+                elif k in (2, 3): n = r.below(4); ops.append('ctor %d %d 0 %s' % (ci, k, ' '.join(str(r.range(0, R)) for _ in range(n)))); sz[ci] = n if k == 2 else (2 if n >= 2 else 0)
+                elif k == 4: ops.append('ctor %d 4 %d' % (ci, r.choice([ida, idb, 9]))); sz[ci] = sz[1 - ci]
+                else: ops.append('ctor %d 5 %d' % (ci, r.choice([ida, idb, 9]))); sz[ci] = sz[1 - ci]; sz[1 - ci] = 0
+            elif o in ('pb', 'pbr', 'eb'): ops.append('%s %d %d' % (o, ci, r.range(0, R))); sz[ci] += 1
             elif o in ('insv', 'empv'): ops.append('%s %d %d %d' % (o, ci, p, r.range(0, R))); sz[ci] += 1
             elif o == 'insn': n = r.below(4); ops.append('insn %d %d %d %d' % (ci, p, n, r.range(0, R))); sz[ci] += n
             elif o in ('insrv', 'inslv'):
@@ -99,14 +129,17 @@ def gen_script(r, kind, nops, ak=0, ida=1, idb=1, hm=0):
     tbl = [('ins', 7), ('emp', 3), ('insc', 2), ('empp', 2), ('insh', 4), ('emph', 3), ('insr', 1), ('insl', 1), ('find', 3), ('cnt', 2),
            ('has', 1), ('eqr', 3), ('erk', 3), ('erf', 3), ('clr', 1), ('swap', 1), ('swp2', 1), ('cmp', 4), ('erif', 2), ('cpy', 1),
            ('mov', 1), ('cpc', 1), ('mvc', 1), ('asl', 1), ('sz', 1), ('erre', 2), ('erra', 1), ('err0', 1), ('err1', 2)]
-    tbl += [('erloop', 2), ('ernx', 2)]
+    tbl += [('erloop', 2), ('ernx', 2), ('fill', 1), ('kfn', 1), ('mvca', 1), ('cpca', 1), ('movq', 1)]
+    if kind in ORDERED: tbl += [('rdump', 1)]
+    if kind[0] == 'u' and kind not in MULTI or kind in ('sumap', 'moumap'): tbl += [('rsvu', 1), ('rhs', 1)]
+    if kind in PLAIN_MAP: tbl += [('emp0', 1)]
     if kind in ORDERED: tbl += [('lb', 2), ('ub', 2), ('eri', 2), ('err', 4)]
     if kind in CROSS_MERGE: tbl += [('mrgm', 2), ('mrgt', 2)]
     if kind in STRINGS: tbl += [('findh', 3), ('cnth', 2), ('hash', 2), ('eqrh', 2)] + ([('lbh', 2), ('ubh', 2)] if kind in ORDERED else [])
     if kind in UNIQ_MAP: tbl += [('tryr', 2), ('insm', 1)]
     if kind in UNIQ_MAP: tbl += [('at', 2), ('idx', 2), ('set', 2), ('setr', 1), ('try', 2), ('tryh', 2), ('ioa', 2), ('ioah', 2)]
     if kind not in NO_NODES: tbl += [('ext', 2), ('exti', 2), ('xins', 3), ('xinsh', 2), ('merge', 2), ('xmut', 2)]
-    if kind in MOVE_ONLY: tbl = [(n, w) for (n, w) in tbl if n not in ('insc', 'insr', 'insl', 'cpy', 'cpc', 'asl')]
+    if kind in MOVE_ONLY: tbl = [(n, w) for (n, w) in tbl if n not in ('insc', 'insr', 'insl', 'cpy', 'cpc', 'asl', 'cpca')]
     names = [n for n, w in tbl for _ in range(w)]
     nodes_across = (ak == 0 or ida == idb)
     for _ in range(nops):
@@ -121,6 +154,12 @@ def gen_script(r, kind, nops, ak=0, ida=1, idb=1, hm=0):
             d = c() if nodes_across else ci
             ops.append('xmut %d %d %d %d' % (ci, d, key(), key()))
         elif o == 'erloop': m = r.range(1, 4); ops.append('erloop %d %d %d' % (ci, m, r.below(m)))
+        elif o == 'fill': n = r.choice([3, 8, 20, 45]); ops.append('fill %d %d %d %d %d' % (ci, n, key(), r.choice([0, 1, 1, 2, -1]), 5000 + 100 * len(ops)))
+        elif o in ('rdump', 'emp0'): ops.append('%s %d' % (o, ci))
+        elif o in ('rsvu', 'rhs'): ops.append('%s %d %d' % (o, ci, r.choice([0, 1, 7, 64, 1000])))
+        elif o == 'kfn': ops.append('kfn %d %d %d' % (ci, key(), key()))
+        elif o in ('mvca', 'cpca'): ops.append('%s %d %d %d' % (o, ci, 1 - ci, ida if ida == idb else r.choice([ida, idb, 9])))
+        elif o == 'movq': ops.append('movq %d %d' % (ci, 1 - ci))
         elif o in ('insr', 'insl', 'asl'):
             n = r.below(4 if o == 'asl' else 5); ops.append('%s %d %s' % (o, ci, ' '.join(kv() for _ in range(n))))
         elif o in ('find', 'cnt', 'has', 'eqr', 'lb', 'ub', 'erk', 'erre', 'err0', 'at', 'idx', 'ext', 'findh', 'cnth', 'hash', 'eqrh', 'lbh', 'ubh'): ops.append('%s %d %d' % (o, ci, key()))
@@ -177,12 +216,15 @@ def we_bases(full):
     """(kind, hashMode, elems) for the iterator-kind erase cases"""
     out = []
     for kind in ('uset', 'uset_o', 'umap', 'umap_o'):
-        for hm in (0, 1):
+        for hm in ((0, 1, 3) if kind == 'uset' else (0, 1)):
             for n in range(0, 5 if full or kind in ('uset', 'umap') else 4):
                 out.append((kind, hm, [(10 + 3 * i, 100 + i) for i in range(n)]))
-    for kind in ('ummap', 'ummap_o'):
-        for hm in (0, 1):
-            for shp in (MM_SHAPES if (full or kind == 'ummap') else MM_SHAPES[:8]):
+    for kind in ('usetf', 'usetf_o', 'umapf_o'):
+        for n in range(0, 5 if full or kind == 'usetf_o' else 4):
+            out.append((kind, 0, [(10 + 3 * i, 0 if kind.startswith('usetf') else 100 + i) for i in range(n)]))
+    for kind in ('ummap', 'ummap_o', 'ummapf', 'ummapf_o'):
+        for hm in ((0, 1, 3) if kind == 'ummap' else (0, 1) if kind == 'ummap_o' else (0,)):
+            for shp in (MM_SHAPES if (full or kind in ('ummap', 'ummapf_o')) else MM_SHAPES[:8]):
                 el = []; vid = 0
                 for gi, cnt in enumerate(shp):
                     for _ in range(cnt):
@@ -230,8 +272,15 @@ def tree_hash(ctx):
     return h.hexdigest()[:16]
 
 
+def only_groups():
+    """VERIF_C06_GROUPS=2,5 restricts a run to some harness groups (used to re-run recorded mutants quickly; the cases of the
+    selected groups are exactly those of the full run)"""
+    v = os.environ.get('VERIF_C06_GROUPS', '')
+    return set(int(x) for x in v.split(',') if x.strip()) if v else None
+
+
 def build_harnesses(ctx):
-    """8 executables (impl x group); cached on the hash of harness.cpp + all momo headers (std side: harness.cpp only)"""
+    """executables (impl x group); cached on the hash of harness.cpp + all momo headers (std side: harness.cpp only)"""
     src = open(os.path.join(ctx.pdir, 'harness.cpp'), 'rb').read()
     hs = hashlib.sha256(src).hexdigest()[:16]
     ht = tree_hash(ctx)
@@ -239,6 +288,8 @@ def build_harnesses(ctx):
     jobs = []; exes = {}
     for impl in ('momo', 'std'):
         for g in GROUPS:
+            if only_groups() and g not in only_groups(): continue
+            if g == 9 and not san: continue
             name = 'h_%s_%d' % (impl, g)
             path = os.path.join(ctx.build, name + ('.san' if san else ''))
             stamp = path + '.stamp'
@@ -247,14 +298,15 @@ def build_harnesses(ctx):
             if os.path.exists(path) and os.path.exists(stamp) and open(stamp).read() == want:
                 continue
             if os.path.exists(stamp): os.remove(stamp)
-            jobs.append(('harness.cpp', name, ['-DIMPL_%s' % impl.upper(), '-DGROUP=%d' % g] + ([] if san else ['-O0', '-g0']), want, stamp))
+            jobs.append(('harness.cpp', name, ['-DIMPL_%s' % impl.upper(), '-DGROUP=%d' % g] + (['-O0'] if san else ['-O0', '-g0']), want, stamp))
     if jobs:
         ctx.log('building %d harness executables' % len(jobs))
-        res = ctx.cxx_many([(s, x, f) for (s, x, f, _, _) in jobs])
+        res = ctx.cxx_many([(s, x, f) for (s, x, f, _, _) in jobs], timeout=3000)
+        failed = False
         for (s, x, f, want, stamp) in jobs:
-            if res.get(x) is None:
-                return None
-            open(stamp, 'w').write(want)
+            if res.get(x) is None: failed = True
+            else: open(stamp, 'w').write(want)
+        if failed: return None
     ctx.coverage['momo_headers_sha'] = ht
     return exes
 
@@ -266,13 +318,67 @@ def run_exe(ctx, exe, cases, tag):
     return rc, lines, err
 
 
+def measure(ctx, exes, cases):
+    """per-dimension counts of what this run really executed (from the case lines and from the momo result lines)"""
+    d = {'cases_per_kind': {}, 'cases_per_kind_and_allocator': {}, 'cases_per_hash_mode(custom-hash unordered kinds)': {}, 'calls_per_operation': {},
+         'max_elements_in_one_container_per_kind': {}, 'cases_reaching_100+_elements': 0, 'cases_reaching_500+_elements': 0}
+    sizes = {}
+    for g in GROUPS:
+        if (only_groups() and g not in only_groups()) or ('momo', g) not in exes: continue
+        pc = os.path.join(ctx.build, 'tw_momo_%d.cases' % g)
+        if not os.path.exists(pc): continue
+        cs = open(pc).read().splitlines()
+        path = os.path.join(ctx.build, 'tw_momo_%d.cases' % g)
+        rc, lines, err = ctx.run_lines([exes[('momo', g)]], path)
+        for cse, ln in zip(cs, lines):
+            w = cse.split(' '); kind = w[0]
+            d['cases_per_kind'][kind] = d['cases_per_kind'].get(kind, 0) + 1
+            if kind in ('pbs', 'mmk', 'mmko'): continue
+            key = '%s/a%s' % (kind, w[1]); d['cases_per_kind_and_allocator'][key] = d['cases_per_kind_and_allocator'].get(key, 0) + 1
+            if kind in ('uset', 'uset_o', 'umap', 'umap_o', 'ummap', 'ummap_o', 'sumap', 'moumap'):
+                d['cases_per_hash_mode(custom-hash unordered kinds)'][w[4]] = d['cases_per_hash_mode(custom-hash unordered kinds)'].get(w[4], 0) + 1
+            for seg in cse.split(';')[1:]:
+                o = seg.strip().split(' ')[0]
+                if o: d['calls_per_operation'][o] = d['calls_per_operation'].get(o, 0) + 1
+            # sizes seen: sz tokens "n,e", fill "ins/size", final dumps
+            mx = 0
+            toks = ln.split(' | ')
+            for t in toks[0].split(' '):
+                if '/' in t and t.replace('/', '').isdigit(): mx = max(mx, int(t.split('/')[1]))
+                elif ',' in t and t.replace(',', '').isdigit() and t.count(',') == 1 and t.split(',')[1] in ('0', '1'): mx = max(mx, int(t.split(',')[0]))
+            for dump in toks[1:]:
+                body = dump.strip().split(']')[0].lstrip('[')
+                mx = max(mx, (body.count(',') + 1) if body else 0)
+            d['max_elements_in_one_container_per_kind'][kind] = max(d['max_elements_in_one_container_per_kind'].get(kind, 0), mx)
+            if mx >= 100: d['cases_reaching_100+_elements'] += 1
+            if mx >= 500: d['cases_reaching_500+_elements'] += 1
+    d['iterator_kind_cases'] = getattr(ctx, 'we_counts', {})
+    d['instantiated_bucket_classes'] = getattr(ctx, 'types_seen', {})
+    return d
+
+
+def types_stage(ctx, exes):
+    """the momo executables print which bucket class each unordered configuration really instantiates (also static_asserted in harness.cpp)"""
+    seen = {}
+    for g in (1, 2, 5, 6):
+        if only_groups() and g not in only_groups(): continue
+        path = os.path.join(ctx.build, 'types_%d.cases' % g); open(path, 'w').write('types\n')
+        rc, lines, err = ctx.run_lines([exes[('momo', g)]], path)
+        for t in (lines[0].split() if lines else []):
+            if '=' in t: k, v = t.split('=', 1); seen[k] = v
+    ctx.types_seen = seen
+    bad = [k for k, v in EXPECTED_TYPES.items() if seen.get(k) != v and not (only_groups() and k not in seen)]
+    ctx.stage('types', not bad, 'unexpected bucket class for %s: %s' % (bad, {k: seen.get(k) for k in bad}) if bad else '')
+    ctx.tie_obligations.append({'name': 'intended bucket classes instantiated (LimP4 with/without hash-code parts, Open2N2, Open8)', 'ok': not bad})
+
+
 # ---------------------------------------------------------------------------------------------- stages
 def three_way(ctx, exes, cases, have_model, label):
     """run every case on momo, std and the model; returns list of (case, momo, std, model, why)"""
     bad = []
     bygroup = {}
     for cse in cases:
-        bygroup.setdefault(GROUP_OF[cse.split(' ', 1)[0]], []).append(cse)
+        bygroup.setdefault(group_of(cse), []).append(cse)
     ok_ms = ok_ss = ok_mstd = True
     for g, cs in sorted(bygroup.items()):
         rc1, momo, e1 = run_exe(ctx, exes[('momo', g)], cs, '%s_momo_%d' % (label, g))
@@ -312,7 +418,7 @@ def three_way(ctx, exes, cases, have_model, label):
 
 def we_stage(ctx, exes, have_model, full):
     """erase(first,last) with explicit iterator kinds: momo vs wrapper model (tie) and vs the python predicate (oracle)"""
-    bases = we_bases(full)
+    bases = [b for b in we_bases(full) if not only_groups() or GROUP_OF[b[0]] in only_groups()]
     bad = []
     # pass 1: traversal orders of the real containers
     by = {}
@@ -341,6 +447,10 @@ def we_stage(ctx, exes, have_model, full):
         if have_model:
             rc3, model, e3 = run_exe(ctx, ctx.model_exe, lines_c, 'we_model_%d' % g)
         ctx.evaluations += len(cs)
+        wc = getattr(ctx, 'we_counts', {})
+        for x in cs:
+            k = '%s:%s' % (x[1], 'erase-loop' if x[4] is None else 'erase(first,last)'); wc[k] = wc.get(k, 0) + 1
+        ctx.we_counts = wc
         for i, (cse, kind, order, f, l) in enumerate(cs):
             a = impl[i] if i < len(impl) else '<missing>'
             if model is not None:
@@ -379,21 +489,42 @@ def we_stage(ctx, exes, have_model, full):
 
 def all_cases(ctx, scale):
     r = ctx.rng; cases = []
-    kinds = ['uset', 'uset_o', 'umap', 'umap_o', 'ummap', 'ummap_o', 'set', 'mset', 'map', 'mmap', 'vec', 'smap', 'sumap', 'momap', 'moumap']
+    kinds = ['uset', 'uset_o', 'umap', 'umap_o', 'ummap', 'ummap_o', 'set', 'mset', 'map', 'mmap', 'vec', 'svec', 'smap', 'sumap', 'momap', 'moumap',
+             'usetf', 'usetf_o', 'umapf', 'umapf_o', 'ummapf', 'ummapf_o']
+    thorough = scale > 1
     # vector: strong guarantee of push_back / emplace_back / insert(end) / push_back(v[0]) when the k-th element copy throws, for every k
     for n in list(range(0, 10)) + [15, 16, 17, 31, 32, 33]:
         for mode in range(4):
             for extra in (0, 1, 3):
                 cases.append('pbs %d %d %d' % (n, mode, extra))
     for kind in kinds:
-        for i in range(60 * scale):
-            hm = 1 if (kind[0] == 'u' and i % 3 == 2) else 0
+        custom_hash = kind in ('uset', 'uset_o', 'umap', 'umap_o', 'ummap', 'ummap_o', 'sumap', 'moumap')
+        for i in range((40 if kind in FAST or kind == 'svec' else 60) * scale):
+            hm = (0, 1, 0, 2, 3)[i % 5] if custom_hash else 0
             cases.append(gen_script(r, kind, r.range(8, 60), 0, 1, 1, hm))
-        if kind in ALLOC_KINDS:
-            for ak in (1, 2, 3, 4):
-                for i in range(10 * scale):
+        if kind in ALLOC_SETS:
+            for ak in (ALLOC_SETS[kind] + (ALLOC_SETS2.get(kind, ()) if thorough else ())):
+                for i in range((6 if kind == 'vec' else 16) * scale):
                     ida = r.range(1, 3); idb = ida if r.chance(1, 2) else r.range(1, 3)
                     cases.append(gen_script(r, kind, r.range(8, 40), ak, ida, idb, 0))
+        # long histories: cross the growth / split / merge thresholds of the nested containers several times, shrink, refill
+        for big in ((120, 330, 700) if not thorough else (120, 330, 700, 1500, 3000)):
+            for rep_ in range(1 if not thorough else 2):
+                step = r.choice([1, 1, 3, -2] + ([0] if kind in MULTI else []))
+                base = r.range(0, 50)
+                hm = (0, 2, 3, 1)[(big + rep_) % 4] if (custom_hash and big <= 330) else 0
+                if kind in ('vec', 'svec'):
+                    pre = ['fillv 0 %d %d' % (big, base), 'shr 0', 'fillv 1 %d 7' % (big // 3), 'errv 0 %d %d' % (big // 4, big // 2), 'rsv 0 %d' % (2 * big)]
+                    post = ['cmp 0 1', 'swap', 'fillv 1 %d 3' % big, 'rsz 1 %d' % (big // 8), 'shr 1', 'clr 0', 'fillv 0 %d 1' % (big // 2), 'sz 0', 'sz 1']
+                    size = big - (big // 2 - big // 4)
+                else:
+                    pre = ['fill 0 %d %d %d 1' % (big, base, step), 'fill 1 %d %d %d 50000' % (big // 3, base + 5, 2 * step if step else 1), 'sz 0', 'sz 1']
+                    post = ['erif 0 2 0', 'sz 0', 'cmp 0 1', 'erloop 1 3 1', 'swap', 'fill 0 %d %d 1 70000' % (big // 2, base - 20), 'clr 1', 'fill 1 %d 0 1 90000' % (big // 4), 'sz 0', 'sz 1']
+                    if kind not in NO_NODES: post.insert(3, 'merge 0 1')
+                    if kind in ORDERED: post.insert(0, 'err 0 %d %d' % (big // 5, big // 2)); post.insert(0, 'rdump 1')
+                    size = big if (step or kind in MULTI) else 1
+                body = gen_script(r, kind, 25, 0, 1, 1, hm, prefix=pre, size=size)
+                cases.append(body + ' ; ' + ' ; '.join(post))
     for kind in ('set', 'mset', 'map', 'mmap'):
         cases += gen_hint_cases(kind, scale > 1)
     # aimed: unordered_multimap == with value-less keys on either side
@@ -424,6 +555,26 @@ def all_cases(ctx, scale):
         idb = {}; b = [(k, idb.setdefault(k, i_), v) for (k, i_, v) in b]
         tail = (' / %d %d' % (2, r.below(2))) if r.chance(1, 3) else ''
         cases.append('%s %d %s / %s%s' % (r.choice(['mmk', 'mmko']), r.below(2), ' '.join('%d.%d.%d' % e for e in a), ' '.join('%d.%d.%d' % e for e in b), tail))
+    # boundary values of every numeric argument: 0, 1, n-1, n, n+1, SIZE_MAX(-1)
+    for kind in ('vec', 'svec'):
+        for n in (0, 1, 2, 5, 16, 17):
+            fillp = 'fillv 0 %d 10' % n
+            idxs = sorted(set([0, 1, max(n - 1, 0), n, n + 1, -1]))
+            cases.append('%s 0 1 1 0 ; %s ; %s ; sz 0' % (kind, fillp, ' ; '.join('atv 0 %d' % i for i in idxs)))
+            for i in idxs:
+                if i < 0: continue
+                cases.append('%s 0 1 1 0 ; %s ; insv 0 %d 77 ; insn 0 %d 0 5 ; insn 0 %d 1 6 ; insrv 0 %d ; erv 0 %d ; errv 0 %d %d ; errv 0 %d %d ; errv 0 0 %d ; rdump 0'
+                             % (kind, fillp, i, i, i, i, i, i, i, i, n, n))
+            cases.append('%s 0 1 1 0 ; %s ; rsz 0 %d ; rsz 0 0 ; rsv 0 0 ; shr 0 ; asg 0 0 3 ; pop 0 ; rszv 0 1 9 ; pop 0 ; pop 0 ; fb 0 ; cmp 0 1 ; ctor 1 0 %d ; cmp 0 1 ; ctor 0 1 %d 4 ; cmp 0 1 ; cmp 1 0' % (kind, fillp, n, n, n))
+    for kind in kinds:
+        if kind in ('vec', 'svec'): continue
+        for n in (0, 1, 2, 7):
+            fillp = 'fill 0 %d 10 2 1' % n
+            q = ' ; '.join('%s 0 %d' % (o, k) for k in (9, 10, 11, 10 + 2 * n - 2, 10 + 2 * n) for o in ('find', 'cnt', 'eqr', 'erk'))
+            cases.append('%s 0 1 1 0 ; %s ; %s ; sz 0' % (kind, fillp, q))
+            if kind in ORDERED:
+                for i in sorted(set([0, 1, max(n - 1, 0), n, n + 1])):
+                    cases.append('%s 0 1 1 0 ; %s ; err 0 %d %d ; err 0 %d %d ; err 0 0 %d ; fill 0 %d 10 2 50 ; eri 0 %d ; exti 0 %d ; insh 0 %d 11 99 ; rdump 0' % (kind, fillp, i, i, i, n, n, n, i, i, i))
     seen = set(); out = []
     for cse in cases:
         if cse not in seen: seen.add(cse); out.append(cse)
@@ -437,13 +588,13 @@ def report(ctx, bad, limit=3):
         if len(b) == 5:
             cse, a, s, m, why = b
             kind = cse.split(' ', 1)[0]
-            g = GROUP_OF.get(kind, 0)
+            g = group_of(cse)
             if ctx.violation(why, {'case': cse, 'momo': a, 'std': s, 'model': m,
                                    'cmd': "echo '%s' | build/C06/h_momo_%d ; (same with h_std_%d, model_driver)" % (cse, g, g)}, found_input=True):
                 n += 1
         else:
             cse, a, m, why = b
-            g = GROUP_OF.get(cse.split(' ')[1], 0) if cse.startswith('we') else 0
+            g = group_of(cse) if cse[:2] in ('we', 'wl') else 0
             ctx.violation(why, {'case': cse, 'momo': a, 'expected': m, 'cmd': "echo '%s' | build/C06/h_momo_%d" % (cse, g)}, found_input=True); n += 1
 
 
@@ -461,12 +612,17 @@ def run(ctx):
         ctx.stage('build-harness', False, getattr(ctx, 'last_cxx_error', ''))
         return ctx.finish(rule=RULE)
     ctx.stage('build-harness', True)
+    types_stage(ctx, exes)
     have_model = bool(ctx.stages.get('prove', {}).get('ok') and ctx.extract())
     cases = all_cases(ctx, scale)
+    if only_groups():
+        cases = [c for c in cases if group_of(c) in only_groups()]
+        ctx.assumptions.append('PARTIAL RUN: restricted to harness groups %s by VERIF_C06_GROUPS' % sorted(only_groups()))
     broke = any(not s['ok'] for s in ctx.stages.values())
     if broke:
         ctx.log('a stage broke: searching the implementation with the thorough generator (oracle = libstdc++)')
-        cases = cases + [c for c in all_cases(ctx, 8) if c not in set(cases)]
+        have = set(cases)
+        cases = cases + [c for c in all_cases(ctx, 8) if c not in have and (not only_groups() or group_of(c) in only_groups())]
     bad, ok_mstd, ok_ms, ok_ss = three_way(ctx, exes, cases, have_model, 'tw')
     if have_model:
         ctx.stage('corr:std-vs-spec', ok_ss, next((b[4] + ': ' + b[0][:200] for b in bad if 'oracle validation' in b[4]), ''))
@@ -485,10 +641,7 @@ def run(ctx):
     for cse in cases[::max(1, len(cases) // 5)][:5]:
         ctx.add_sample(cse)
     ctx.add_sample('we ummap 0 10:101 10:102 13:103 / 0 0 -1 0 / <traversal order>')
-    dist = {}
-    for cse in cases:
-        dist[cse.split(' ', 1)[0]] = dist.get(cse.split(' ', 1)[0], 0) + 1
-    ctx.coverage['input_distribution'] = dist
+    ctx.coverage['input_distribution'] = measure(ctx, exes, cases)
     return ctx.finish(rule=RULE)
 
 
@@ -501,7 +654,7 @@ def replay(ctx, rp):
     if exes is None:
         print('harness does not build'); return 2
     have_model = ctx.extract() if os.path.exists(os.path.join(ctx.cdir, 'Spec.vo')) else False
-    if cse.startswith('we '):
+    if cse[:3] in ('we ', 'wl '):
         g = GROUP_OF[cse.split(' ')[1]]
         rc, lines, err = run_exe(ctx, exes[('momo', g)], [cse], 'replay')
         a = lines[0] if lines else err
@@ -521,7 +674,7 @@ def replay(ctx, rp):
         if bad:
             print('VIOLATION property=C06 replay=%s' % ctx.replay); return 1
         print('property holds on this case'); return 0
-    g = GROUP_OF[cse.split(' ', 1)[0]]
+    g = group_of(cse)
     rc1, a, e1 = run_exe(ctx, exes[('momo', g)], [cse], 'replay_momo')
     rc2, b, e2 = run_exe(ctx, exes[('std', g)], [cse], 'replay_std')
     a = a[0] if a else 'CRASH ' + e1[-300:]; b = b[0] if b else 'CRASH ' + e2[-300:]
